@@ -26,6 +26,7 @@ const (
 	cjJob                 // next() is called in a promise job / executor / async function (sel), with .catch(e => C(K,e))
 	cjEval                // eval("next()")
 	cjClass               // new (class { constructor(){ this.v = next(); } })
+	cjHostIter            // next() is called from the body of a for-of / an array destructuring default over a HOST-implemented iterator
 	cnFunc                // func(FunctionCall) Value; AssertFunction(next); panic(err)
 	cnReflect             // func() (Value, error); returns err as is
 	cnReflectWrap         // func() (Value, error); returns fmt.Errorf("ctx: %w", err)
@@ -43,11 +44,11 @@ const (
 	nChainKinds
 )
 
-var chKindCodes = [...]string{"Jp", "Jr", "Jf", "Jb", "Js", "Jw", "Jg", "Jx", "Jn", "Jj", "Je", "Jk",
+var chKindCodes = [...]string{"Jp", "Jr", "Jf", "Jb", "Js", "Jw", "Jg", "Jx", "Jn", "Jj", "Je", "Jk", "Ji",
 	"Nf", "Nr", "Nw", "Np", "Nc", "Ne", "Nx", "Ng", "No", "Nt", "Nd", "Ns", "Nk", "Nn"}
 
 var chKindNames = [...]string{"J-plain", "J-catch-rethrow", "J-finally", "J-catch-rethrow+finally", "J-catch-swallow", "J-catch-wrap",
-	"J-getter", "J-proxy-trap", "J-generator", "J-promise", "J-eval", "J-class-ctor",
+	"J-getter", "J-proxy-trap", "J-generator", "J-promise", "J-eval", "J-class-ctor", "J-host-iterator",
 	"N-FunctionCall", "N-reflect(error)", "N-reflect-wrapped(%w)", "N-reflect-noerr(panic)", "N-ConstructorCall", "N-ExportTo(error)",
 	"N-ExportTo(panic)", "N-Try+Get", "N-Try+ForOf", "N-ProxyTrapConfig", "N-DynamicObject", "N-swallow", "N-AssertConstructor", "N-RunProgram"}
 
@@ -56,7 +57,8 @@ var chKindTable = [...]int{cjPlain, cjRethrow, cjFinally, cjBoth, cjSwallow, cjW
 	cnFunc, cnReflect, cnReflectWrap, cnReflectNoErr, cnCtor, cnExportErr, cnExportPanic, cnTryGet, cnForOf, cnProxyCfg, cnDynamic,
 	cnSwallow, cnCtorReenter, cnRunProgram,
 	cjRethrow, cjRethrow, cjFinally, cjFinally, cjBoth, cjWrap, cnReflectWrap, cnReflectWrap, cnReflectWrap, cnFunc, cnReflect, cnExportErr,
-	cnReflectNoErr, cnExportPanic, cnDynamic, cnProxyCfg, cnCtor, cjJob}
+	cnReflectNoErr, cnExportPanic, cnDynamic, cnProxyCfg, cnCtor, cjJob,
+	cjHostIter, cjHostIter, cjHostIter, cjHostIter, cjHostIter, cjHostIter}
 
 func chIsNative(k int) bool { return k >= cnFunc }
 
@@ -64,6 +66,55 @@ var chStrictForOf = os.Getenv("VERIF_C14_FOROF_STACK") != "0" // goja repaired (
 
 type chFrame struct {
 	kind, sel int
+	// cjHostIter only, decided by the fault schedule: what the Go-implemented return() / next() of the iterator do
+	retAct, nextAct int
+}
+
+// cjHostIter variants (sel): how the script consumes the host iterator
+const (
+	iterForOfReturn  = iota // for (var x of HI()) { return B(K, next()); }
+	iterForOfBreak          // for (var x of HI()) { r = B(K, next()); break; } return r;
+	iterForOfExhaust        // for (var x of HI()) { r = B(K, next()); } return r;     the iterator ends by itself: no close
+	iterDestructure         // var [x = B(K, next())] = HI(); return x;
+	nIterSel
+)
+
+var chIterSelNames = [...]string{"for-of left by return", "for-of left by break", "for-of run to exhaustion", "array destructuring default"}
+
+// what the native return() does when the iterator is closed
+const (
+	retNothing        = iota
+	retValue          // panic(Value)
+	retException      // panic(*Exception) captured earlier
+	retGoError        // reflect-style return of a Go error
+	retForeignString  // panic("...")
+	retForeignStruct  // panic(chForeignStruct{...})
+	retForeignRuntime // nil map write
+	retInterrupt      // rt.Interrupt(v), then normal return
+	nRetActs
+)
+
+var chRetActNames = [...]string{"nothing", "panic-value", "panic-exception", "go-error", "foreign-string", "foreign-struct", "foreign-runtime-error", "interrupt"}
+var chRetActTable = [...]int{retNothing, retNothing, retNothing, retValue, retValue, retException, retGoError, retForeignString, retForeignString,
+	retForeignStruct, retForeignStruct, retForeignRuntime, retForeignRuntime, retInterrupt, retInterrupt, retNothing}
+
+func chRetForeign(a int) bool { return a >= retForeignString && a <= retForeignRuntime }
+func chRetThrows(a int) bool  { return a == retValue || a == retException || a == retGoError }
+
+// what the native next() does
+const (
+	nextNormal      = iota
+	nextThrowFirst  // the first call panics with a Value: the loop body never runs, nothing is closed
+	nextThrowSecond // the second call (only made by the exhausting loop) panics with a Value: nothing is closed
+)
+
+var chNextActTable = [...]int{nextNormal, nextNormal, nextNormal, nextNormal, nextNormal, nextNormal, nextThrowFirst, nextThrowSecond}
+
+// chIterVals: the values the host's iterator of frame k raises (made by the host before the chain runs).
+type chIterVals struct {
+	retPay, nextPay *chPay      // payloads of catchable raises of return() / next()
+	foreign         interface{} // foreign panic value of return() (nil for the runtime error)
+	foreignRT       string      // message of the runtime error
 }
 
 // cjJob variants (sel)
@@ -88,7 +139,7 @@ const (
 // jobSync: the frame below a promise frame runs synchronously inside the frame (executor, async function before its first
 // await): catchable states become a rejection, everything else propagates synchronously.
 func (f chFrame) jobSync() bool {
-	return f.kind == cjJob && (f.sel == jobExecutor || f.sel == jobAsyncSync)
+	return f.kind == cjJob && (f.sel%nJobSel == jobExecutor || f.sel%nJobSel == jobAsyncSync)
 }
 
 // ---- entry API kinds ---------------------------------------------------------------------------------------------
@@ -216,6 +267,8 @@ const (
 
 type chState struct {
 	kind      int
+	foreign   interface{} // csForeign: the very panic value the host must recover
+	foreignRT string      // csForeign: ... or the message of the Go runtime error
 	normal    string
 	p         *chPay
 	strictTop bool // Stack()[0] must be the raising script function at its line
@@ -233,8 +286,11 @@ type chModel struct {
 	made     []*chPay // made[K]: the payload frame K creates (Nw, Ne, Jw)
 	segOf    []int    // segment of the synchronous events of frame K (index n+1: the raiser)
 
-	crossRethrow, crossFinally, swallowJS, swallowHost, crossJob, crossProxy, crossDynamic, crossCtor, crossExport bool
-	wrappedTwice, crossCatchOrFinally                                                                              bool
+	crossRethrow, crossFinally, swallowJS, swallowHost, crossJob, crossProxy, crossDynamic, crossCtor, crossExport  bool
+	wrappedTwice, crossCatchOrFinally                                                                               bool
+	truncatedAt                                                                                                     int // >0: next() of this frame threw, deeper frames never run
+	iterClosedOnThrow, iterClosedOnReturn, retThrowIgnored, retThrowReplaced, retForeignOnThrow, retForeignOnReturn bool
+	iterNotClosedAbrupt, nextThrew                                                                                  bool
 }
 
 func (m *chModel) ev(seg int, f string, a ...interface{}) {
@@ -276,22 +332,40 @@ func chScriptActive(frames []chFrame, entry, k int) bool {
 }
 
 // chPredict runs the transfer model. root is the state the raiser produces (csNormal "ok" when nothing is raised).
-func chPredict(frames []chFrame, entry int, root chState) *chModel {
+func chPredict(frames []chFrame, entry int, root chState, iv []chIterVals) *chModel {
 	n := len(frames)
 	m := &chModel{n: n, in: make([]chState, n+1), logs: make([][]string, n+2), made: make([]*chPay, n+2), segOf: chSegments(frames)}
 	// way in: every native frame logs its entry, then the raiser logs R
+	start := n
 	for k := 1; k <= n; k++ {
-		if chIsNative(frames[k-1].kind) {
+		f := frames[k-1]
+		if chIsNative(f.kind) {
 			m.ev(m.segOf[k], "N%d", k)
 		}
+		if f.kind == cjHostIter {
+			m.ev(m.segOf[k], "I%d", k)
+			m.ev(m.segOf[k], "n%d", k)
+			if f.nextAct == nextThrowFirst {
+				// the iterator's first step throws: the for-of / destructuring statement of frame k throws that value, the
+				// iterator is NOT closed (ECMA-262: an iterator that throws from next() is considered done)
+				m.truncatedAt, m.nextThrew = k, true
+				start = k - 1
+				break
+			}
+		}
 	}
-	m.ev(m.segOf[n+1], "R")
 	// way out
-	s := root
-	if s.topIfAny && chScriptActive(frames, entry, n+1) {
-		s.someTop = true
+	var s chState
+	if m.truncatedAt > 0 {
+		s = chState{kind: csThrow, p: iv[m.truncatedAt].nextPay, someTop: true}
+	} else {
+		m.ev(m.segOf[n+1], "R")
+		s = root
+		if s.topIfAny && chScriptActive(frames, entry, n+1) {
+			s.someTop = true
+		}
 	}
-	for k := n; k >= 1; k-- {
+	for k := start; k >= 1; k-- {
 		m.in[k] = s
 		f := frames[k-1]
 		seg := m.segOf[k]
@@ -404,6 +478,46 @@ func chPredict(frames []chFrame, entry int, root chState) *chModel {
 				m.ev(seg, "S%d(%s)", k, s.p.class)
 				m.swallowHost = true
 				s = chState{kind: csNormal, normal: fmt.Sprintf("host-swallowed-%d", k)}
+			}
+		case cjHostIter:
+			v := f.sel % nIterSel
+			switch s.kind {
+			case csNormal:
+				m.ev(seg, "b%d", k)
+				if v == iterForOfExhaust {
+					m.ev(seg, "n%d", k) // the step that finds the iterator done (or throws): no close either way
+					if f.nextAct == nextThrowSecond {
+						m.nextThrew = true
+						s = chState{kind: csThrow, p: iv[k].nextPay, someTop: true}
+					}
+					break
+				}
+				// IteratorClose with a normal / return / break completion: return() is called and what it throws REPLACES the completion
+				m.ev(seg, "r%d", k)
+				m.iterClosedOnReturn = true
+				switch {
+				case chRetThrows(f.retAct):
+					m.retThrowReplaced = true
+					s = chState{kind: csThrow, p: iv[k].retPay, someTop: true}
+				case chRetForeign(f.retAct):
+					m.retForeignOnReturn = true
+					s = chState{kind: csForeign, foreign: iv[k].foreign, foreignRT: iv[k].foreignRT}
+				}
+			case csThrow:
+				// IteratorClose with a throw completion: return() is called, whatever it throws is IGNORED and the original
+				// exception goes on. A non-goja panic in it is not an exception: it takes over and must reach the host.
+				m.ev(seg, "r%d", k)
+				m.iterClosedOnThrow = true
+				switch {
+				case chRetThrows(f.retAct):
+					m.retThrowIgnored = true
+				case chRetForeign(f.retAct):
+					m.retForeignOnThrow = true
+					s = chState{kind: csForeign, foreign: iv[k].foreign, foreignRT: iv[k].foreignRT}
+				}
+			default:
+				// a foreign panic or an uncatchable condition passes: return() must NOT be called (no event)
+				m.iterNotClosedAbrupt = true
 			}
 		case cjGen:
 			if v := f.sel % nGenSel; catchable && (v == genForOf || v == genDestructure) && !chStrictForOf {
